@@ -165,6 +165,10 @@ Kick(p, n) ==
   /\ peers' = [peers EXCEPT ![p].owed = IF n >= 1 THEN 0 ELSE @]
   /\ UNCHANGED <<up, tr, base, reading, last, exited>>
 
+(* the accepted peer overwrites the length word of its request in the shared ring while msg_process runs on it:
+   nothing the server was told changes; whatever it does next (drop the peer or go on) it stays inside its buffers *)
+Rewrite(p) == Live /\ Known(p) /\ peers[p].att /\ UNCHANGED vars
+
 (* H4: the library client's connect completes, its request is answered *)
 GCont(p, rc, mx) ==
   /\ Live /\ Known(p) /\ peers[p].good = 1 /\ peers[p].open
